@@ -258,7 +258,9 @@ def analyse(F, E, b, alloc_len_expr, make_bbs):
     for bl in b["blocks"]:
         for s in bl["stmts"]:
             if s["k"] == "assign" and s["rv"]["k"] == "agg" and s["rv"].get("adt") == RANGE:
-                ranges.append([nobb(symx.expr(F, B, o)) for o in s["rv"]["ops"]])
+                from .props import c06 as _c06
+
+                ranges.append([_c06.norm_block_len(nobb(symx.expr(F, B, o)), data_name) for o in s["rv"]["ops"]])
     if uc[0] in ("direct",):
         if len(counters) == 1 and any(r[0] == ("const", 0) and r[1] == L for r in ranges):
             bound_ok = True
